@@ -996,7 +996,10 @@ class ConcKit(KitBase):
 
     def real_eq(self, a, b):
         """Floating point: equality up to relative 1e-7 (rounding is outside the real-arithmetic abstraction)."""
+        import math
         a, b = float(a), float(b)
+        if not (math.isfinite(a) and math.isfinite(b)):
+            return a == b               # an infinity equals only the same infinity; NaN equals nothing
         return abs(a - b) <= 1e-7 * max(1.0, abs(a), abs(b))
 
     def branch(self, cond):
